@@ -20,6 +20,9 @@ structure Tx where
   start : Option Nat
   /-- TTL / invalid-hereafter (body key 3) -/
   ttl   : Option Nat
+  /-- `tx.IsValid()` (Alonzo+). Neither rule reads it: the validity interval is a phase-1
+      check and binds phase-2-invalid transactions as well. -/
+  valid : Bool := true
 deriving Repr, DecidableEq
 
 /-- `tx.ValidityIntervalStart()`: absent reads as 0. -/
